@@ -2,8 +2,9 @@
     sounds, effects, control behaviour and output stage [o_out], that the buffer-level renderer
     (chunks of at most b frames, temp buffers, in-place mixing) is the frame-sequential signal-flow
     machine [spec_chunks].  Here [o_out] is instantiated with THIS property's output stage: the
-    device buffer of a callback is [render ch b bus] where [bus] is the signal C02 specifies — so
-    "every sample finite in [-1, 1], layout" reduces to "the specified bus carries no NaN". *)
+    device buffer of a callback is [render ch b bus] where [bus] is the signal C02 specifies — and,
+    since the repaired stage is total, every sample of it is finite and in [-1, 1] whatever the
+    sounds, effects, gains and tree put on the bus. *)
 From Coq Require Import ZArith List Bool Arith Lia.
 From KV Require Import Base.IEEE Base.Outcome C01.Model C01.ProofsOut C01.ProofsSteps
      C02.Model C02.ProofsList C02.Props.
@@ -57,6 +58,17 @@ Section OnC02.
     rewrite (renderer_refines_spec_any O ch b (chunk_sizes b n) Hms res sx Hnd). cbn [snd].
     rewrite spec_chunks_out, (flat_map_map_out ch _ Hout).
     rewrite render_is_per_frame by lia. reflexivity.
+  Qed.
+
+  (** "every sample written is a finite number in [-1, 1]" for every mixer configuration of C02's model *)
+  Lemma device_buffer_wellformed (ch b n : nat) (res : tI O) (sx : smixer O) :
+    1 <= b -> NoDup (map fst (sx_sends O sx)) ->
+    (forall f, map smp (o_out O ch f) = out_stage ch (fst (fr f)) (snd (fr f))) ->
+    Forall (fun x => unit32 x = true)
+           (map smp (snd (run_chunks O ch (conc_renderer O b res sx) (chunk_sizes b n)))).
+  Proof.
+    intros Hb Hnd Hout. rewrite (device_buffer_is_render ch b n res sx Hb Hnd Hout).
+    apply render_wellformed. lia.
   Qed.
 
   Lemma spec_bus_length (ms : list nat) : forall st, length (spec_bus st ms) = list_sum ms.
